@@ -178,6 +178,33 @@ def words(rng, quick):
 
 
 
+def decorated_tokens(rng, quick):
+    """trimmed tokens inside the combinators that rewrite errors or results: a named sequence / Name / one-element
+    sequence / Single / SuppressError / Optional / Choice around (or starting with) the trimmed token: the whitespace
+    error of the mode must come through unchanged (a Name replaces only "was expecting" errors at its start)"""
+    out = []
+    a, b = ('rune', A), ('rune', B)
+    gaps = ws_strings(1) + [[SP, SP], [SP, LF], [LF, SP], [CR, LF]] + [rand_gap(rng, 3) for _ in range(1 if quick else 8)]
+    for m in MODES:
+        lt, rt = ('ltrim', m, b), ('rtrim', m, a)
+        lefts = [('seq', 'SeqOf', 'INone', False, [83, 49], [lt, a]), ('seq', 'SeqOf', 'INone', True, [83, 50], [lt]),
+                 ('name', [78, 49], lt), ('name', [78, 50], G.seqof(lt, a)), G.seqof(lt), ('single', G.seqof(lt)),
+                 ('choice', [lt, a]), ('any', [G.seqof(lt, a), lt]), ('opt', lt), ('suppress', lt),
+                 ('seq', 'SeqTry', 'INone', False, [83, 51], [lt, a])]
+        rights = [('seq', 'SeqOf', 'INone', False, [83, 52], [rt]), ('name', [78, 51], rt), ('single', G.seqof(rt)),
+                  ('choice', [rt, b]), ('seq', 'SeqOf', 'INone', False, [83, 53], [a, ('rtrim', m, b)])]
+        for g in gaps:
+            for l in lefts:
+                for tail in ([B, A], [B], [A]):
+                    out.append((G.case_text([], G.seqof(a, l), [A] + g + tail, offset=rng.choice([1, 2, 7]), flags=0),
+                                {"stream": "decorated-token", "nontrivial": len(g) > 0, "k3": False, "outcome": "n/a"}))
+            for r in rights:
+                for tail in ([B], [A, B]):
+                    out.append((G.case_text([], G.seqof(r, b), [A] + g + tail, offset=rng.choice([1, 2, 7]), flags=0),
+                                {"stream": "decorated-token", "nontrivial": len(g) > 0, "k3": False, "outcome": "n/a"}))
+    return out
+
+
 def ambiguous_tokens(rng, quick):
     """a trimmed token with SEVERAL results (an operator that is a prefix of another: Any('<', '<=')) between two tokens:
     the whitespace behind each alternative has to be skipped and judged for that alternative"""
@@ -262,6 +289,7 @@ def generate(rng, tier):
     out += ctx_further(rng)
     out += words(rng, quick)
     out += ambiguous_tokens(rng, quick)
+    out += decorated_tokens(rng, quick)
     if not quick:
         out += ctx_further(rng) + ctx_further(rng)
     return out
